@@ -41,8 +41,7 @@ MANIFEST = dict(
           "output model (identity in the correspondence: formatter=None-like formatters, and named formatters on values that need no "
           "substitution); str.lower() has no final-sigma rule in the model (U+03A3 not generated); which key object a dictionary retains "
           "is not modelled (NamespacedAttribute keys in attrs arguments carry string values only); lxml is not installed, so the "
-          "XML-flavoured builder of the streams is html.parser's tokenizer with is_xml=True and the base (empty) table. Known finding "
-          "C17-copy-first-pass-huge-int (copy_self's discarded first pass raises for an int beyond the str() digit limit in a plain dict)."),
+          "XML-flavoured builder of the streams is html.parser's tokenizer with is_xml=True and the base (empty) table. "),
     technique="Lean 4 proofs over a code-mirror + differential correspondence through a line protocol + direct property oracle",
 )
 
@@ -1471,17 +1470,7 @@ def zero_defect_class(case, observed, expected):
 
 
 def known_finding_class(case, observed, expected):
-    """Classifier for recorded findings (computed from the case itself).
-    C17-copy-first-pass-huge-int: copy.copy of a tag whose *plain* AttributeDict holds an int beyond the interpreter's
-    str() digit limit raises ValueError: copy_self first builds a builder-less Tag, whose HTML/XML container tries to
-    turn the int into a string, before the attributes are replaced by the original's."""
-    if case.get("kind") == "tag" and case.get("via") == "copy" and case.get("acls") == "plain" and observed == "valueError":
-        lim = sys.get_int_max_str_digits()
-        for _, vd in case.get("attrs") or []:
-            if vd[0] == "i":
-                v = mk(vd)
-                if lim and len(big_dec(abs(v))) > lim:
-                    return "C17-copy-first-pass-huge-int"
+    """Classifier for recorded findings (computed from the case itself). None are recorded for C17 at present."""
     return None
 
 
